@@ -511,6 +511,9 @@ func (c *fnCtx) function() {
 			if n.Name == "_" {
 				c.lostAt(f, "blank parameter")
 			}
+			if t.k == "seq" && (n.Obj == nil || !seqOnlyRanged(fd, n.Obj)) {
+				c.lostAt(f, "iterator parameter %s (only ranged over)", n.Name)
+			}
 			if t.k == "slice" && t.elem.k == "slice" && n.Obj != nil && nestedReadOnly(fd, n.Obj) {
 				// a slice of slices that is only read: by value
 				if t.elem.elem.k == "slice" {
